@@ -222,7 +222,7 @@ class Analysis:
                 break
         else:
             raise ExtractionError("effect summaries did not stabilise")
-        self.writes, self.set_iterations, self.excluded = [], [], []
+        self.writes, self.set_iterations, self.excluded, self.raise_iterations = [], [], [], []
         for q in sorted(self.analysed):
             f = self.analysed[q]
             if f.name == "update_parameters" and f.cls and "terms.Parameter" in self.src.ancestors(f.cls):
@@ -234,6 +234,7 @@ class Analysis:
             w.effects()
             self.writes += w.writes
             self.set_iterations += w.set_iters
+            self.raise_iterations += w.raise_iters
 
     # ---- roots / closure -------------------------------------------------------------------
     def _is_root(self, f):
@@ -413,7 +414,7 @@ class FnWalk:
         self.env = {}
         self.sets = SetEval(an, f)
         self._env_fixpoint()
-        self.writes, self.set_iters = [], []
+        self.writes, self.set_iters, self.raise_iters = [], [], []
         self._mut = set()
 
     # ---- origins ----------------------------------------------------------------------------
@@ -570,6 +571,19 @@ class FnWalk:
                 return True
         if isinstance(v, ast.Call) and isinstance(v.func, ast.Attribute) and isinstance(v.func.value, (ast.Constant, ast.JoinedStr)):
             return True
+        if isinstance(v, ast.Call):
+            # result of pypika function(s) that are all declared `-> str`
+            defs = []
+            if isinstance(v.func, ast.Attribute) and v.func.attr in self.an.pyp_names and not self.is_builtin_receiver(v.func):
+                defs = self.an.src.by_name[v.func.attr]
+            elif isinstance(v.func, ast.Name):
+                r = self.an.src.lookup(self.f.module, v.func.id)
+                if r and r[0] == "fn":
+                    defs = [self.an.src.fns[r[1]]]
+                elif v.func.id in ("str", "repr", "format"):
+                    return True
+            if defs and all(g.ret_ann == "str" for g in defs):
+                return True
         return False
 
     # ---- summaries ---------------------------------------------------------------------------
@@ -638,7 +652,7 @@ class FnWalk:
             self._w(node, "%s %s" % (how, txt), "arg", "anywhere", a)
 
     def effects(self):
-        self.writes, self.set_iters, self._mut = [], [], set()
+        self.writes, self.set_iters, self.raise_iters, self._mut = [], [], [], set()
         f = self.f
         # decorators that keep state
         for d in f.decorators:
@@ -768,7 +782,21 @@ class FnWalk:
                     self._mutation(call, kw.value, "passed to mutating %s(%s=) :" % (g.qual, kw.arg))
 
     # ---- ordered consumption of sets -----------------------------------------------------------
+    def _in_raise(self, node):
+        c = node
+        while c in self.parents:
+            c = self.parents[c]
+            if isinstance(c, ast.Raise):
+                return True
+            if isinstance(c, (ast.FunctionDef, ast.AsyncFunctionDef)):
+                return False
+        return False
+
     def _si(self, node, expr, how):
+        if self._in_raise(node):
+            self.raise_iters.append({"cls": self.f.cls or "", "fn": self.f.qual, "method": self.f.name,
+                                     "source": ast.unparse(expr), "how": how + " (exception message)", "line": getattr(node, "lineno", 0)})
+            return
         self.set_iters.append({"cls": self.f.cls or "", "fn": self.f.qual, "method": self.f.name,
                                "source": ast.unparse(expr), "how": how, "line": getattr(node, "lineno", 0)})
 
@@ -853,14 +881,18 @@ def coq_table(an):
     it = ["  mkI %s %s %s" % (_q(i["cls"]), _q(i["fn"]), _q("%s of %s (line %d)" % (i["how"], i["source"], i["line"])))
           for i in an.set_iterations]
     out.append("Definition set_iters_now : list iter_entry := [\n" + ";\n".join(it) + "\n].\n")
+    ri = ["  mkI %s %s %s" % (_q(i["cls"]), _q(i["fn"]), _q("%s of %s (line %d)" % (i["how"], i["source"], i["line"])))
+          for i in an.raise_iterations]
+    out.append("(* set iterations that only feed the message of an exception being raised: the observation has no text *)")
+    out.append("Definition raise_iters_now : list iter_entry := [\n" + ";\n".join(ri) + "\n].\n")
     out.append("Definition analysed_now : list string := [\n" + ";\n".join(
         "  " + _q(q) for q in sorted(an.analysed) if not an.analysed[q].is_builder) + "\n].\n")
     out.append("Definition excluded_now : list string := [" + "; ".join(_q(c + "." + m) for c, m in an.excluded) + "].\n")
-    out.append("Definition table : effect_table := mkT classes_now writes_now set_iters_now analysed_now excluded_now.")
+    out.append("Definition table : effect_table := mkT classes_now writes_now set_iters_now raise_iters_now analysed_now excluded_now.")
     return "\n".join(out) + "\n"
 
 
 def summary(an):
     return {"classes": len(an.src.classes), "functions": len(an.src.fns), "roots": len(an.roots),
             "analysed": len(an.analysed), "writes": an.writes, "set_iterations": an.set_iterations,
-            "excluded": an.excluded, "set_attrs": sorted(an.set_attrs)}
+            "excluded": an.excluded, "raise_iterations": an.raise_iterations, "set_attrs": sorted(an.set_attrs)}
